@@ -13,41 +13,41 @@ import (
 
 // Result is everything observed from one entry-point call.
 type Result struct {
-	Task     int      `json:"task"`
-	Call     string   `json:"call"`
-	Err      string   `json:"err,omitempty"`
-	ErrClass string   `json:"err_class"`
-	Panic    string   `json:"panic,omitempty"`
-	Hang     bool     `json:"hang,omitempty"`
-	Dump     []string `json:"dump,omitempty"`  // single-result calls
+	Task     int        `json:"task"`
+	Call     string     `json:"call"`
+	Err      string     `json:"err,omitempty"`
+	ErrClass string     `json:"err_class"`
+	Panic    string     `json:"panic,omitempty"`
+	Hang     bool       `json:"hang,omitempty"`
+	Dump     []string   `json:"dump,omitempty"`  // single-result calls
 	Dumps    [][]string `json:"dumps,omitempty"` // DecodeChained: one per file
-	NFiles   int      `json:"nfiles,omitempty"`
+	NFiles   int        `json:"nfiles,omitempty"`
 
 	// reader observations
-	Delivered  int    `json:"delivered"`
-	MaxWantEnd int    `json:"max_want_end"`
-	ReadCalls  int    `json:"read_calls"`
-	TraceHash  uint64 `json:"trace_hash"`
-	CutFired   bool   `json:"cut_fired,omitempty"`
-	FailFired  bool   `json:"fail_fired,omitempty"`
-	FailData   bool   `json:"fail_data,omitempty"`
-	EOFData    bool   `json:"eof_data,omitempty"`
-	Stutters   int    `json:"stutters,omitempty"`
-	ShortReads int    `json:"short_reads,omitempty"`
-	LogLines   int    `json:"log_lines,omitempty"`
-	LogHash    uint64 `json:"log_hash,omitempty"`
+	Delivered  int         `json:"delivered"`
+	MaxWantEnd int         `json:"max_want_end"`
+	ReadCalls  int         `json:"read_calls"`
+	TraceHash  uint64      `json:"trace_hash"`
+	CutFired   bool        `json:"cut_fired,omitempty"`
+	FailFired  bool        `json:"fail_fired,omitempty"`
+	FailData   bool        `json:"fail_data,omitempty"`
+	EOFData    bool        `json:"eof_data,omitempty"`
+	Stutters   int         `json:"stutters,omitempty"`
+	ShortReads int         `json:"short_reads,omitempty"`
+	LogLines   int         `json:"log_lines,omitempty"`
+	LogHash    uint64      `json:"log_hash,omitempty"`
 	FirstReads []readEvent `json:"first_reads,omitempty"`
 
 	// writer observations
-	Out      []byte `json:"out,omitempty"`
-	Outs     [][]byte `json:"-"`
-	WriteSz  []int  `json:"write_sizes,omitempty"`
-	PostHdrSize uint32 `json:"post_hdr_size,omitempty"`
-	PostHdrCRC  uint16 `json:"post_hdr_crc,omitempty"`
-	PostCRC     uint16 `json:"post_crc,omitempty"`
-	BuildErr    string `json:"build_err,omitempty"`
-	Repeats     int    `json:"repeats,omitempty"`
-	RepeatDiff  int    `json:"repeat_diff,omitempty"` // index of the first repeated Encode whose bytes differ from the first (0 = none)
+	Out         []byte   `json:"out,omitempty"`
+	Outs        [][]byte `json:"-"`
+	WriteSz     []int    `json:"write_sizes,omitempty"`
+	PostHdrSize uint32   `json:"post_hdr_size,omitempty"`
+	PostHdrCRC  uint16   `json:"post_hdr_crc,omitempty"`
+	PostCRC     uint16   `json:"post_crc,omitempty"`
+	BuildErr    string   `json:"build_err,omitempty"`
+	Repeats     int      `json:"repeats,omitempty"`
+	RepeatDiff  int      `json:"repeat_diff,omitempty"` // index of the first repeated Encode whose bytes differ from the first (0 = none)
 
 	file  *fit.File
 	files []*fit.File
